@@ -200,6 +200,37 @@ theorem usplitSet_length_lt_rooted_tip (t : T) (hu : t.tipNames.Nodup) (hr : t.r
       simp only [T.leaves] at this ⊢
       omega
 
+/-- the root is a tip and its only child an inner node: the branch between them is not a tip
+    branch in the split list, but its split is trivial (the root alone on one side) -/
+theorem usplitSet_length_lt_tip_rooted (t : T) (hu : t.tipNames.Nodup) (h1 : t.kids.length = 1)
+    (hin : t.kids.all (fun et => !et.2.isLeaf) = true) :
+    t.usplitSet.length + 1 ≤ t.internalEdges.length := by
+  have hle := usplitSet_length_le' t hu
+  have hint : t.internalEdges.length = (t.splits.filter fun s => !s.tip).length := by simp [T.internalEdges]
+  rw [hint]
+  suffices ∃ s ∈ t.splits, (!s.tip) = true ∧
+      decide (2 ≤ lightSize t.tipNames (canonSide t.tipNames s.below)) = false by
+    obtain ⟨s, hs, hp, hq⟩ := this
+    have := filter_and_lt (fun s : SplitE => !s.tip)
+      (fun s : SplitE => decide (2 ≤ lightSize t.tipNames (canonSide t.tipNames s.below))) t.splits s hs hp hq
+    omega
+  obtain ⟨d, p, k⟩ := t
+  simp only [T.kids_node] at h1 hin
+  clear hle hint
+  match k, h1, hu, hin with
+  | [(e, c)], _, hu, hin =>
+    have hc : c.isLeaf = false := by simpa using hin
+    have hall : (T.node d p [(e, c)]).tipNames = [d.name] ++ c.leaves := by
+      simp [T.tipNames, leavesL, T.name]
+    rw [hall] at hu ⊢
+    refine ⟨⟨c.leaves, e, c.isLeaf⟩, by simp [T.splits, splitsL], by simp [hc], ?_⟩
+    have hcs : canonSide ([d.name] ++ c.leaves) [d.name] = canonSide ([d.name] ++ c.leaves) c.leaves :=
+      canonSide_compl hu (List.Perm.refl _)
+    simp only [decide_eq_false_iff_not, Nat.not_le]
+    rw [← hcs]
+    have := lightSize_singleton hu d.name
+    omega
+
 /-- rooted tree whose root has two inner children: the two branches at the root define the
     same split -/
 theorem usplitSet_length_lt_rooted_inner (t : T) (hu : t.tipNames.Nodup) (hr : t.rooted = true)
